@@ -313,6 +313,26 @@ static void obl(const char *check, int ok, const char *fmt, ...)
 	nobl++;
 }
 
+/* decimal text of a numeric argument read from the payload with its declared type (NULL for strings) */
+static const char *expected_default_text(struct ev_spec *s, const char *name, struct emu_ev *ev)
+{
+	static char b[64];
+	struct ev_arg *a = ev_spec_find_arg(s, name);
+	if (a == NULL || ev->payload == NULL) return NULL;
+	const uint8_t *p = (const uint8_t *) ev->payload + a->offset;
+	switch (a->type) {
+		case U8:  { uint8_t x;  memcpy(&x, p, sizeof(x)); snprintf(b, sizeof(b), "%llu", (unsigned long long) x); return b; }
+		case U16: { uint16_t x; memcpy(&x, p, sizeof(x)); snprintf(b, sizeof(b), "%llu", (unsigned long long) x); return b; }
+		case U32: { uint32_t x; memcpy(&x, p, sizeof(x)); snprintf(b, sizeof(b), "%llu", (unsigned long long) x); return b; }
+		case U64: { uint64_t x; memcpy(&x, p, sizeof(x)); snprintf(b, sizeof(b), "%llu", (unsigned long long) x); return b; }
+		case I8:  { int8_t x;   memcpy(&x, p, sizeof(x)); snprintf(b, sizeof(b), "%lld", (long long) x); return b; }
+		case I16: { int16_t x;  memcpy(&x, p, sizeof(x)); snprintf(b, sizeof(b), "%lld", (long long) x); return b; }
+		case I32: { int32_t x;  memcpy(&x, p, sizeof(x)); snprintf(b, sizeof(b), "%lld", (long long) x); return b; }
+		case I64: { int64_t x;  memcpy(&x, p, sizeof(x)); snprintf(b, sizeof(b), "%lld", (long long) x); return b; }
+		default: return NULL;
+	}
+}
+
 static const char *mcvstr(int c, int v)
 {
 	static char b[4][24]; static int k;
@@ -647,12 +667,21 @@ int main(int argc, char **argv)
 						if (*d == '%') {
 							const char *e = strchr(d, '}');
 							if (e == NULL) { ok = 0; break; }
+							/* "%{name}" (no custom printf format): the DEFAULT format of the argument's type is
+							 * used; the substituted text must then be the argument's value in decimal, full width
+							 * (this is a fact about the type_fmt table of ev_spec.c, not about libc) */
+							char an[64]; an[0] = 0;
+							if (d[1] == '{' && (size_t) (e - d - 2) < sizeof(an)) { memcpy(an, d + 2, (size_t) (e - d - 2)); an[e - d - 2] = 0; }
 							d = e + 1;
-							/* skip the substituted text: up to the next literal character of the description */
-							if (*d == 0) { o += strlen(o); break; }
-							const char *nx = strchr(o, *d);
+							/* the substituted text runs up to the next literal character of the description */
+							const char *nx = (*d == 0) ? o + strlen(o) : strchr(o, *d);
 							if (nx == NULL) { ok = 0; break; }
+							if (an[0]) {
+								const char *want = expected_default_text(s, an, &ev);
+								if (want != NULL && ((size_t) (nx - o) != strlen(want) || strncmp(o, want, (size_t) (nx - o)) != 0)) ok = 0;
+							}
 							o = nx;
+							if (*d == 0) break;
 							continue;
 						}
 						if (*o != *d) ok = 0;
@@ -678,7 +707,7 @@ int main(int argc, char **argv)
 			if (model_event_print(&emu->model, &ev, out, 64) == 0) { unl++; if (!bad++) snprintf(first, sizeof(first), "first offender: unlisted %s printed", mcvstr(c, v)); }
 		}
 		obl("print_listed", bad == 0, "%ld (listed event, fill) payloads of the declared shape: the real model_event_print returns 0, output NUL-terminated, the literal parts of the description in order with a value "
-				"in place of every %%{arg}, no brace left; one byte less => refused; no unlisted code prints (%ld did); NOT decided here: that the substituted text is the argument's value (libc formatting); %ld bad %s",
+				"in place of every %%{arg}, no brace left; one byte less => refused; no unlisted code prints (%ld did); for arguments printed with the DEFAULT format of their type the substituted text is the decimal value read with the declared type and width (custom printf formats and strings: not decided, libc formatting); %ld bad %s",
 				n, unl, bad, first);
 	}
 	printf("DONE %d\n", nobl);
